@@ -45,9 +45,169 @@ pub fn run(args: &Args) -> Out {
                 }
             }
         }
+        "schedule" => {
+            crate::sched::install();
+            if let Some((s, c)) = replay_case {
+                schedule_case(s, c, &mut out);
+            } else {
+                for idx in 0..args.n(24_000, 960_000) {
+                    if args.mine(idx) {
+                        schedule_case(args.seed, idx, &mut out);
+                    }
+                }
+            }
+            out.count("lock_events", crate::sched::lock_events());
+            out.count("pauses_taken", crate::sched::pauses_taken());
+        }
         _ => {}
     }
     out
+}
+
+// ---------------------------------------------------------------------------------------------
+// leg 3: one searching thread against one writing thread under directed pauses; at quiescence a
+// following search that hits the cache must be fresh with respect to the completed write
+
+fn schedule_case(seed: u64, idx: usize, out: &mut Out) {
+    use crate::sched;
+    let mut rng = Rng::derive(seed, idx as u64, 0x5C07);
+    let dim = [3usize, 8, 40][idx % 3];
+    let metric = metric_from(idx / 3);
+    let ecfg = EngCfg {
+        dim,
+        metric,
+        capacity: 10_000,
+        snapshot_interval: 0,
+        max_wal: 1 << 30,
+        fsync: FsyncPolicy::Never,
+        tiered: true,
+        hot_soft: *rng.pick(&[2usize, 1000]),
+        hot_hard: 2000,
+    };
+    let mut tcfg = ecfg.tiered_config(None);
+    tcfg.hnsw_ef_search = 400;
+    let engine = match TieredEngine::new(Box::new(LruCacheStrategy::new(4)), Arc::new(QueryHashCache::new(8, 1.0)), vec![], vec![], tcfg) {
+        Ok(e) => Arc::new(e),
+        Err(_) => return,
+    };
+    let mut model = Model::default();
+    let q = gen_vec(&mut rng, dim, metric);
+    let n0 = rng.range(3, 6);
+    for id in 0..n0 {
+        let v = gen_vec(&mut rng, dim, metric);
+        if engine.insert(id, v, std::collections::HashMap::new()).is_ok() {
+            if let Some(st) = engine.cold_tier().fetch_document(id) {
+                model.apply_insert(id, bits(&st), Meta::new());
+            }
+        }
+    }
+    if rng.chance(0.5) {
+        let _ = engine.flush_hot_tier(true);
+    }
+    let k = rng.range(1, 3) as usize;
+    // the write: 0 = insert a new document right at the query, 1 = delete the current best, 2 = overwrite the current best far away
+    let kind = idx % 3;
+    let best = engine.knn_search_with_ef(&q, 1, Some(400)).ok().and_then(|r| r.first().map(|r| r.doc_id));
+    let prewarm = rng.chance(0.3);
+    if prewarm {
+        let _ = engine.knn_search(&q, k);
+    }
+    let new_id = 50u64;
+    let far = gen_vec(&mut rng, dim, metric).iter().map(|x| -x * 3.0 - 1.0).collect::<Vec<f32>>();
+    let mode = idx % 2;
+    let pt = rng.usize_below(2);
+    let pe = 1 + rng.usize_below(40);
+    if mode == 0 {
+        sched::set_pause(Some(sched::Pause { thread: pt, event: pe, max_ms: 20 }), None);
+    } else {
+        sched::set_jitter(400, rng.next_u64());
+    }
+    let (e1, e2) = (engine.clone(), engine.clone());
+    let (q1, qw) = (q.clone(), q.clone());
+    let bodies: Vec<Box<dyn FnOnce() + Send + 'static>> = vec![
+        Box::new(move || {
+            let _ = e1.knn_search(&q1, k);
+        }),
+        Box::new(move || match kind {
+            0 => {
+                let _ = e2.insert(new_id, qw, std::collections::HashMap::new());
+            }
+            1 => {
+                if let Some(b) = best {
+                    let _ = e2.delete(b);
+                }
+            }
+            _ => {
+                if let Some(b) = best {
+                    let _ = e2.insert(b, far, std::collections::HashMap::new());
+                }
+            }
+        }),
+    ];
+    let r = sched::run_threads(&["searcher".to_string(), "writer".to_string()], bodies, std::time::Duration::from_secs(30));
+    sched::set_jitter(0, 1);
+    sched::clear_graph();
+    if !r.completed {
+        out.inconclusive("schedule did not complete");
+        std::mem::forget(engine);
+        return;
+    }
+    // model after the (completed) write
+    let mut written = BTreeSet::new();
+    match kind {
+        0 => {
+            if let Some(st) = engine.cold_tier().fetch_document(new_id) {
+                model.apply_insert(new_id, bits(&st), Meta::new());
+                written.insert(new_id);
+            }
+        }
+        1 => {
+            if let Some(b) = best {
+                model.apply_delete(b);
+            }
+        }
+        _ => {
+            if let Some(b) = best {
+                if let Some(st) = engine.cold_tier().fetch_document(b) {
+                    model.apply_insert(b, bits(&st), Meta::new());
+                    written.insert(b);
+                }
+            }
+        }
+    }
+    out.eval();
+    let write_name = ["insert-at-query", "delete-best", "overwrite-best-far"][kind];
+    let mode_name = ["single-pause", "jitter"][mode];
+    let desc = json!({"check":"C07","leg":"schedule","seed":seed,"case":idx,"dim":dim,"metric":metric_name(metric),"write":write_name,"k":k,"prewarm":prewarm,
+                      "mode":mode_name,"pause":{"thread":pt,"event":pe}});
+    for round in 0..2 {
+        match engine.knn_search_with_ef_detailed(&q, k, None) {
+            Ok((res, path)) => {
+                if path == SearchExecutionPath::CacheHit {
+                    out.count("quiescent_cache_hits_judged", 1);
+                    if let Err((sig, detail)) = judge(metric, &q, k, &res, &model, &written, true) {
+                        let sig = match sig.as_str() {
+                            "dead-document" => "stale-hit-after-racing-delete",
+                            "wrong-distance" => "stale-hit-after-racing-overwrite",
+                            "recent-write-missing" => "stale-hit-omits-racing-insert",
+                            other => other,
+                        };
+                        out.violation(
+                            format!("{}|store-after-invalidate", sig),
+                            format!("case {}: after searcher and writer both returned, search #{} of the same query is served from the cache but is not fresh: {}", idx, round, detail),
+                            desc.clone(),
+                        );
+                        return;
+                    }
+                }
+            }
+            Err(_) => {}
+        }
+    }
+    out.distinct(&(idx % 9, kind, mode, pt, pe, prewarm));
+    if idx % 797 == 0 {
+        out.sample(desc);
+    }
 }
 
 // ---------------------------------------------------------------------------------------------
